@@ -292,6 +292,10 @@ pub fn edge_case(out: &mut Out, depth: u8, h: u64, dd: u8, tag: &str) {
     out.rec(&format!("ipart {} {} {}", h, dd, [1, 3, 5, 7][k]), &match &p { Some(v) => list_u64(v), None => "panic".into() });
     let want: Vec<u64> = (0..side).map(|t| match k { 0 => xy(t, 0), 1 => xy(0, t), 2 => xy(m, t), _ => xy(t, m) }).collect();
     if p.as_ref().map(|x| x.to_vec()) != Some(want.clone()) { out.violation("C14:internal_edge_part", format!("{} part={}", inp, k), list_u64(&want[..want.len().min(8)]), format!("{:?}", p.as_ref().map(|x| x.len()))); }
+    // the `append_` twin (a separate implementation in the crate): appends the same cells to what is already there
+    let a = catch(|| { let mut v: Vec<u64> = vec![7]; nested::append_internal_edge_part(h, dd, &ord(k), &mut v); v });
+    let mut wanta = vec![7u64]; wanta.extend(want.iter().cloned());
+    if a != Some(wanta) { out.violation("C14:append_internal_edge_part", format!("{} part={}", inp, k), "[7] followed by the cells of internal_edge_part".into(), format!("{:?}", a.as_ref().map(|x| x.len()))); }
   }
   // ---- external edge
   if deep > 29 { return; }
@@ -369,6 +373,9 @@ pub fn run_c14(out: &mut Out, rng: &mut Rng, thorough: bool) {
       }
     }
   }
+  // a delta_depth above 16 (coordinates of the sub-cells no longer fit 16 bits: another z-order table class; half a million cells)
+  edge_case(out, 3, rng.below(12u64 << 6), 17, "delta-depth-17");
+  if thorough { edge_case(out, 9, rng.below(12u64 << 18), 18, "delta-depth-18"); }
   // delta_depth = 29 - depth exactly (the top-level functions must accept it)
   for depth in 17..=28u8 { edge_case(out, depth, rng.below(12u64 << (2 * depth as u32)), 29 - depth, "depth+delta=29"); }
   edge_case(out, 20, 0, 9, "depth+delta=29");
